@@ -219,6 +219,10 @@ func Package(r *sim.Run, o PackOpts) (*Production, error) {
 	for i := range nextDts {
 		nextDts[i] = uint64(t.Draw(3)) * 100000
 	}
+	// the caller's scratch table for AddSamples / AddSampleInterval batches: one backing array reused for every
+	// batch of the whole production (sub-slices of one table, overwritten for the next batch), which is legal for a
+	// caller unless the API documents that it keeps the slice
+	scratch := make([]mp4.Sample, 0, 64)
 	nSegs := 1 + t.Draw(o.MaxSegs)
 	if nSegs < o.MinSegs {
 		nSegs = o.MinSegs
@@ -355,7 +359,10 @@ func Package(r *sim.Run, o PackOpts) (*Production, error) {
 						k = 1 + t.Draw(left[ti])
 					}
 					if k > 1 {
-						var ss []mp4.Sample
+						ss := scratch[len(scratch):len(scratch)]
+						if t.Bool() || len(scratch)+k > cap(scratch) {
+							ss = scratch[:0] // overwrite the previous batch
+						}
 						first := nextDts[ti]
 						for j := 0; j < k; j++ {
 							rec := newRec(ti)
@@ -363,6 +370,7 @@ func Package(r *sim.Run, o PackOpts) (*Production, error) {
 							payload = append(payload, rec.Data...)
 						}
 						frag.AddSamples(ss, first)
+						scratch = scratch[:len(ss)+(cap(scratch)-cap(ss))]
 						r.Event("AddSamples", ti, k)
 					} else {
 						rec := newRec(ti)
@@ -382,11 +390,16 @@ func Package(r *sim.Run, o PackOpts) (*Production, error) {
 				case "interval":
 					k := 1 + t.Draw(left[ti])
 					si := mp4.SampleInterval{FirstDecodeTime: nextDts[ti]}
+					si.Samples = scratch[len(scratch):len(scratch)]
+					if t.Bool() || len(scratch)+k > cap(scratch) {
+						si.Samples = scratch[:0]
+					}
 					for j := 0; j < k; j++ {
 						rec := newRec(ti)
 						si.Samples = append(si.Samples, toSample(rec))
 						si.Data = append(si.Data, rec.Data...)
 					}
+					scratch = scratch[:len(si.Samples)+(cap(scratch)-cap(si.Samples))]
 					si.Size = uint32(len(si.Data))
 					if err := frag.AddSampleInterval(si); err != nil {
 						return nil, fmt.Errorf("AddSampleInterval: %w", err)
